@@ -160,7 +160,7 @@ PROPS["C13"] = {
     "level": "proof",
     "technique": "Verus trait-level contract on the real Streamable trait and impls (extracted verbatim; macro arms expanded by token substitution): stream/update_digest/parse all against one accumulator-style encoding spec enc_onto",
     "level_text": "Deductive proof, modular over the trait: for every impl under contract, stream appends exactly enc, update_digest absorbs exactly enc (so hash == sha256(enc)), and whenever parse (trusted or not: same contract) returns a value the consumed bytes are exactly that value's encoding (canonicity); from_bytes accepts only inputs that are entirely the encoding.",
-    "level_note": "Covered impls: 10 integer primitives, bool, (), Option<T>, tuples 2-4, Vec<T>, Bytes, BytesImpl<N>, trait default methods, all 112 derive(Streamable) structs of chia-protocol (from rustc's expansion, spec generated from the declarations) and the 6 hand-written codecs (FullBlock, UnfinishedBlock, ProofOfSpace incl. the v2 quality-string hash, RewardChainBlock, SubEpochSummary, SubEpochData with the shared-prefix optional helper). Opaque with assumed contract: String, [T;N], Program, BLS elements, derived enums. The decode(encode(x)) == x direction is argued by composition (prefix-free encodings) and not machine-checked.",
+    "level_note": "Covered impls: 10 integer primitives, bool, (), Option<T>, tuples 2-4, Vec<T>, Bytes, BytesImpl<N>, trait default methods, all 112 derive(Streamable) structs of chia-protocol (from rustc's expansion, spec generated from the declarations) and the hand-written codecs (FullBlock, UnfinishedBlock, ProofOfSpace incl. the v2 quality-string hash, RewardChainBlock, SubEpochSummary, SubEpochData with the shared-prefix optional helper, Program, String). Opaque with assumed contract: [T;N], BLS elements, derived enums. The decode(encode(x)) == x direction is argued by composition (prefix-free encodings) and not machine-checked.",
     # the `hashable` clause of parse (hashing a decoded value is defined) is C14's statement, decided there
     "components": [V("streamable_core")] + [V(u, exclude_clause=r"v\.hashable\(\)") for u in
                    ("streamable_derived_0", "streamable_derived_1", "streamable_derived_2", "streamable_handwritten")],
